@@ -584,14 +584,13 @@ Qed.
 
 (* ---- load_rules *)
 Ltac fail_case :=
-  let H := fresh "Hreal" in
-  cbn [of_xres sum_bind xbind xthen x_isa rt_isa]; intros H; rewrite ?H; eexists; reflexivity.
+  cbn [of_xres sum_bind xbind xthen x_isa rt_isa]; eexists; reflexivity.
 
 Theorem omen_load_rules_cases dir :
   match omen_guesser_load fo W iws dz dir with
   | inl t => py_omen_load_rules fo W (VStr dir) (VDict []) = XDone (enc_omen_tables t, VBool true)
-  | inr e => x_isa (XC CException) e = true ->
-             exists g', py_omen_load_rules fo W (VStr dir) (VDict []) = XDone (g', VBool false)
+  | inr e => exists g', py_omen_load_rules fo W (VStr dir) (VDict []) =
+                        if x_isa (XC CException) e then XDone (g', VBool false) else XFail e
   end.
 Proof.
   unfold omen_guesser_load. cbv beta zeta delta [py_omen_load_rules]. name_keys.
